@@ -71,6 +71,21 @@ theorem fsetLit_bare (f : QualName) (args : List PyVal) (kwargs : List (Str × P
       | cons x2 r2 => simp [bareL, soleListLit]
   simp only [fsetLit, hk, ha]
 
+theorem floatPh_bare (f : QualName) (args : List PyVal) (kwargs : List (Str × PyVal)) (h : floatPh f args kwargs = true) :
+    floatPh f (bareL args) (bareK kwargs) = true := by
+  simp only [floatPh, Bool.and_eq_true, beq_iff_eq, List.isEmpty_iff] at h
+  obtain ⟨⟨hname, hk0⟩, hshape⟩ := h
+  subst hk0
+  cases args with
+  | nil => simp [soleStrPh] at hshape
+  | cons x r =>
+    cases r with
+    | cons x2 r2 => cases x <;> simp [soleStrPh] at hshape
+    | nil =>
+      cases x with
+      | ident parts => simpa [floatPh, hname, bareL, bareK, bare, soleStrPh] using hshape
+      | _ => simp [soleStrPh] at hshape
+
 mutual
 /-- comments are invisible to what a value denotes -/
 theorem erase_bare : (v : PyVal) → erase (bare v) = erase v
@@ -123,7 +138,10 @@ theorem inRd_bare : (v : PyVal) → inRd v = true → inRd (bare v) = true
   | .call f args kwargs, h => by
       simp only [inRd, Bool.and_eq_true] at h
       simp only [bare, inRd, Bool.and_eq_true]
-      exact ⟨⟨by rw [fsetLit_bare]; exact h.1.1, inRdL_bare args h.1.2⟩, inRdK_bare kwargs h.2⟩
+      refine ⟨⟨?_, inRdL_bare args h.1.2⟩, inRdK_bare kwargs h.2⟩
+      rcases Bool.or_eq_true _ _ |>.mp h.1.1 with h1 | h1
+      · rw [fsetLit_bare]; simp [h1]
+      · simp [floatPh_bare f args kwargs h1]
   | .none, h => h
   | .ellipsis, h => h
   | .bool _, h => h
